@@ -40,6 +40,14 @@ fn safe_ops(a: &mut Asm, rng: &mut Rng, n: usize) {
   }
 }
 
+/// stack-relative address arithmetic in the middle of a block that ends in a plain RET / JP / JR:
+/// LD HL,SP+e ; LD A,L ; LD HL,0xC000 (HL back to where the data ops expect it), or a balanced ADD SP,e pair
+fn sp_ops(a: &mut Asm, rng: &mut Rng) {
+  // (inside a subroutine called from the main loop SP ends in 0xFD: offsets 4..8 make the low byte of the sum 1..5)
+  if rng.chance(2, 3) { let e = if rng.chance(2, 3) { *rng.pick(&[4u8, 5, 6, 7, 8, 2, 0x80, 0xfe]) } else { rng.u8() }; a.b(&[0xf8, e, 0x7d, 0x21, 0x00, 0xc0]); }
+  else { let e = 1 + rng.below(0x7e) as u8; a.b(&[0xe8, e, 0xe8, (0u8).wrapping_sub(e)]); }
+}
+
 /// builds the program image: (rom patches, number of banks used)
 fn build_program(seed: u64) -> Vec<(usize, u8)> {
   let mut rng = Rng::new(seed ^ 0xc04);
@@ -58,6 +66,7 @@ fn build_program(seed: u64) -> Vec<(usize, u8)> {
   for k in 0..8usize {
     a.at(0x2000 + k * 0x40);
     { let n = 2 + rng.below(6) as usize; safe_ops(&mut a, &mut rng, n); }
+    if rng.chance(1, 2) { sp_ops(&mut a, &mut rng); }
     if rng.chance(1, 3) { a.b(&[0xc8 + 8 * rng.below(2) as u8 * 2]); } // RET Z / RET C (conditional), falls through to RET
     safe_ops(&mut a, &mut rng, 1);
     a.b(&[0xc9]);
@@ -79,7 +88,7 @@ fn build_program(seed: u64) -> Vec<(usize, u8)> {
   a.at(0x3060); a.b(&[0xea, 0x00, 0x21, 0xc3, 0x00, 0x40]);
   // a work-RAM routine that runs the SAME banked address under two banks with nothing but RAM code in between
   // (copied to 0xC1A0): LD A,b1 ; LD (0x2100),A ; CALL 0x4040 ; LD A,b2 ; LD (0x2100),A ; CALL 0x4040 ; RET
-  let (rb1, rb2) = (1 + rng.below(7) as u8, 1 + rng.below(7) as u8);
+  let (rb1, rb2) = (1 + rng.below(8) as u8, 1 + rng.below(8) as u8);
   a.at(0x3080); a.b(&[0x3e, rb1, 0xea, 0x00, 0x21, 0xcd, 0x40, 0x40, 0x3e, rb2, 0xea, 0x00, 0x21, 0xcd, 0x40, 0x40, 0xc9]);
   // a long straight-line stretch (more than 256 guest bytes in one block): INC B x 300 ; RET
   a.at(0x3100); for _ in 0..300 { a.b(&[0x04]); } a.b(&[0xc9]);
@@ -111,7 +120,8 @@ fn build_program(seed: u64) -> Vec<(usize, u8)> {
     match rng.below(14) {
       13 => { a.b(&[0xcd, 0xa0, 0xc1]); },                    // same banked address under two banks, driven from work RAM
       10 => {                                                // two calls of the SAME banked address under different banks through the RAM trampoline
-        let b1 = 1 + rng.below(7) as u8; let b2 = 1 + (b1 + rng.below(6) as u8) % 7;
+        // one time in three the pair is bank 1 and bank 8 (= bank 0 in the window on this 8-bank cartridge)
+        let (b1, b2) = if rng.chance(1, 3) { if rng.chance(1, 2) { (1u8, 8u8) } else { (8, 1) } } else { let b1 = 1 + rng.below(7) as u8; (b1, 1 + (b1 + rng.below(6) as u8) % 7) };
         a.b(&[0x3e, b1, 0xcd, 0x80, 0xc1, 0x3e, b2, 0xcd, 0x80, 0xc1]);
       },
       11 => { a.b(&[0xcd, 0x00, 0x31]); },                    // the 300-instruction straight-line block
@@ -127,12 +137,12 @@ fn build_program(seed: u64) -> Vec<(usize, u8)> {
       4 => { a.b(&[0xcd, 0x80, 0xff]); },                     // OAM DMA through the HRAM routine
       5 => { a.b(&[0xcd, 0x00, 0xc1]); },                     // code in work RAM
       6 => {                                                  // bank switch from bank 0, then call banked code
-        let bank = 1 + rng.below(7) as u8; let k = rng.below(4) as usize; let t = 0x4000 + k * 0x40;
+        let bank = 1 + rng.below(8) as u8; let k = rng.below(4) as usize; let t = 0x4000 + k * 0x40;   // 8 wraps to bank 0 in the window
         a.b(&[0x3e, bank, 0xea, 0x00, 0x21, 0xcd, (t & 0xff) as u8, (t >> 8) as u8]);
       },
       7 => { a.b(&[0x3e, rng.u8(), 0xe0, 0x01, 0x3e, 0x81, 0xe0, 0x02]); },   // serial byte
       8 => { a.b(&[0xc5, 0xd5, 0xe1, 0xc1, 0x21, 0x00, 0xc0]); safe_ops(&mut a, &mut rng, 3); },   // PUSH/POP
-      _ => { { let n = 2 + rng.below(8) as usize; safe_ops(&mut a, &mut rng, n); } if rng.chance(1, 4) { a.b(&[0xcf]); } },
+      _ => { { let n = 2 + rng.below(8) as usize; safe_ops(&mut a, &mut rng, n); } if rng.chance(1, 3) { sp_ops(&mut a, &mut rng); } if rng.chance(1, 4) { a.b(&[0xcf]); } },
     }
   }
   a.b(&[0xc3, (main_loop & 0xff) as u8, (main_loop >> 8) as u8]);
